@@ -17,6 +17,7 @@ def ev(name):
 
 
 def register(R, tier="quick"):
+    register_ramlock(R)
     SW = W + ":SegmentWriter."
     # ---- call-site contracts: each step of the commit is one event (their own bodies are verified below or are
     # codec/pool code outside this property)
@@ -255,3 +256,30 @@ def register(R, tier="quick"):
                          Canary("lock-failure-ignored", "raise LockError", "pass")],
                note="O5/C04: the writer reads the TOC only after it holds the write lock; if the lock cannot be taken it "
                     "raises LockError without having read or touched anything")
+
+
+def register_ramlock(R):
+    """C04 on RamStorage: the named lock must be ONE object per name, otherwise every writer acquires its own lock"""
+    from pyvc.values import Obj, PyDict
+    from pyvc.theories.trace import Recorder
+    FS = "whoosh.filedb.filestore"
+    n = [0]
+
+    def new_lock(I, args, kw, node):
+        n[0] += 1
+        return Recorder("lock#%d" % n[0])
+    for pre in (False, True):
+        def setup(I, pre=pre):
+            locks = {}
+            if pre:
+                locks["WRITELOCK"] = Recorder("lock#existing")
+            return {"self": Obj(I.repo.klass(FS, "RamStorage"), {"files": PyDict({}), "locks": PyDict(locks), "folder": ""}),
+                    "name": "WRITELOCK"}
+        R.contract(FS + ":RamStorage.lock", label="commit/RamStorage.lock-one-per-name" + ("#existing" if pre else ""), props=["C04"],
+                   setup=setup, externals={"threading.Lock": new_lock},
+                   harness="l1 = self.lock(name)\nl2 = self.lock(name)\n",
+                   ensures=["l1 is l2"] + (["l1 is old(self.locks['WRITELOCK'])"] if pre else []),
+                   inline_callees=[FS + ":RamStorage.lock"],
+                   canaries=[Canary("fresh-lock-per-call", "return self.locks[name]", "return Lock()")] if not pre else [],
+                   note="two requests for the lock of one name get the same lock object (so a second writer really contends "
+                        "with the first)")
